@@ -21,10 +21,10 @@ ASSUMPTIONS = ["ASCII version text"]
 
 
 def correspondence(ctx):
-    n = 8000 if ctx.thorough else 1500
+    n = 30000 if ctx.thorough else 1500
     T.run_corr(ctx, "corr_npm", "npm-shorthand", n)
     T.run_corr(ctx, "corr_gempypi", "gem-tilde", n)
-    m = 3000 if ctx.thorough else 500
+    m = 12000 if ctx.thorough else 500
     # ---- semver family successors
     for name in ("semver", "golang", "composer", "nginx"):
         rng = ctx.rng("c18", name)
